@@ -108,9 +108,8 @@ pub mod state_handle {
     //@   props C15
     //@   rule R3 *
     //@   req[plain_write.pre.perm] forall|b: Seq<u8>| #[trigger] wb_ok(b) <==> b == buffer@
-    //@   closure 1 sig |_e: std::sync::PoisonError<std::sync::MutexGuard<'_, State>>| -> (r: std::io::Error)
-    //@   closure 2 sig |_u: ()| -> (r: usize)
-    //@   closure 2 ens r == buffer.len()
+    //@   closure ~buffer.len() ## sig |_u: ()| -> (r: usize)
+    //@   closure ~buffer.len() ## ens r == buffer.len()
     //@   ens[plain_write.post.ok] r is Ok ==> write_buffer_result(buffer@) is Ok && r->Ok_0 == buffer@.len()
     //@   ens[plain_write.post.handed_over] !self.poisoned() ==> (r is Ok <==> write_buffer_result(buffer@) is Ok)
     //@   canary
